@@ -2,6 +2,9 @@ import CssVerif.Lemmas.Validate
 import CssVerif.Lemmas.ValidateGen
 import CssVerif.Model.ValidateReg
 import CssVerif.Model.Css21Keywords
+import CssVerif.Lemmas.ValueText
+import CssVerif.Lemmas.ValidateColor
+import CssVerif.Model.OutPrefs
 /-!
 # C13 — the validation verdict depends only on name, value, profiles; validation only annotates
 
@@ -61,6 +64,91 @@ verdict the correspondence compares is the verdict of the model these theorems s
 theorem driver_acceptance_is_model_acceptance : accReFast = accRe := by
   funext r s
   simp [accReFast, accRe, acceptsFast_eq]
+
+
+/-! ## T13.3 — the value text handed to validation does not depend on comment / white-space placement
+
+Model: `Model/ValueText.lean` — `ProdParser.parse` on the value grammar (default COMMENT / S handling, `_SorTokens`,
+`nextSor`, `mayEnd`, `stopAndKeep`) followed by `do_css_PropertyValue(valuesOnly=True)` over `Out.append`.
+A *component* is a token that is neither S nor COMMENT (a term — for a function the whole run up to its `)` —,
+`,`, `/`, `;`, or a token the grammar refuses); `components ts` deletes the S and COMMENT tokens of a stream. -/
+
+open CssVerif.ValueText in
+/-- T13.3 `value_text_reads_components`. For every token stream, every preference record and nesting level:
+`Property.value` is obtained by (1) deleting comments and white space from the stream, (2) reading what is left as
+`term ( (',' | '/')? term )*` cut at `;` (`specValue`: `none` = the value is refused), (3) serialising the items.
+In particular the stream with its gaps enters only through `components`. No hypothesis. -/
+theorem value_text_reads_components (p : Out.Prefs) (lv : Nat) (ts : List VTok) :
+    propertyValue p lv ts = (specValue (components ts)).map (valueText p lv) :=
+  propertyValue_spec p lv ts
+
+open CssVerif.ValueText in
+/-- T13.3 `value_text_gap_invariant`: two spellings of a value with the same components (whatever comments and
+white space stand between, before and after them — also none at all, also S tokens in a row) have the same
+`Property.value`, or are both refused; under every serializer preference. -/
+theorem value_text_gap_invariant (p : Out.Prefs) (lv : Nat) (a b : List VTok) (h : components a = components b) :
+    propertyValue p lv a = propertyValue p lv b := by
+  rw [propertyValue_spec, propertyValue_spec, h]
+
+open CssVerif.ValueText in
+/-- normal form: every spelling has the `Property.value` of its spelling without any comment or white space
+(`components ts` is itself a token stream, and deleting the gaps twice is deleting them once) -/
+theorem value_text_normal_form (p : Out.Prefs) (lv : Nat) (ts : List VTok) :
+    propertyValue p lv ts = propertyValue p lv (components ts) := by
+  apply value_text_gap_invariant
+  simp [components, List.filter_filter]
+
+open CssVerif.ValueText in
+/-- the same as an edit: a run of comments and white space put anywhere into a value changes nothing -/
+theorem value_text_gap_insertion (p : Out.Prefs) (lv : Nat) (a g b : List VTok) (hg : ∀ t ∈ g, t.isGap = true) :
+    propertyValue p lv (a ++ g ++ b) = propertyValue p lv (a ++ b) := by
+  apply value_text_gap_invariant
+  simp [components_append, components_of_allGap hg]
+
+open CssVerif.ValueText in
+/-- the parsed item list itself (not only its serialisation) is the same up to the comment items -/
+theorem item_list_gap_invariant (a b : List VTok) (h : components a = components b) :
+    (parseValue a).map noComments = (parseValue b).map noComments := by
+  rw [parseValue_spec, parseValue_spec, h]
+
+open CssVerif.ValueText in
+/-- T13.3 → T13.1 `verdict_gap_invariant`: the verdict of `Property.validate` on the value parsed from a token
+stream (refused value: no verdict) is the same for two spellings with the same components — for every registry,
+acceptance function, property name, priority, `@font-face` context, preference record. -/
+theorem verdict_gap_invariant {π : Type} (acc : π → Str → Option Bool) (reg : Registry π) (ff : Str) (fontFace : Bool)
+    (name priority : Str) (p : Out.Prefs) (lv : Nat) (a b : List VTok) (h : components a = components b) :
+    (propertyValue p lv a).map (fun v => propValid acc reg ff fontFace { name := name, value := v, priority := priority }) =
+    (propertyValue p lv b).map (fun v => propValid acc reg ff fontFace { name := name, value := v, priority := priority }) := by
+  rw [value_text_gap_invariant p lv a b h]
+
+open CssVerif.ValueText in
+/-- the loop of `parseValue` never stops for lack of fuel: with more fuel than tokens the result is the same for
+every amount of it (`parseValue` runs it with `length + 1`) -/
+theorem value_parse_no_fuel (f : Nat) (st : Stream) (l : Loop) (h : st.size < f) (k : Nat) :
+    mainLoop (f + k) st l = mainLoop f st l :=
+  mainLoop_fuel f st l h k
+
+section
+open CssVerif.ValueText
+
+/-- non-vacuity and what the model computes on examples (tests, not theorems): `a /*c*/ , 1px`, `a,1px` and
+`/*x*/a/**/,/*y*/ 1px ` have the same components and the value text `a, 1px`; `a/**/1px` and `a 1px` give
+`a 1px`; `a ,/**/ , 1px`, `a,` and a lone comment are refused; `a,;` is cut at the `;` -/
+example :
+    components [exA, .s, .comment (cps "/*c*/"), .s, .op 44, .s, exB] = components [exA, .op 44, exB] ∧
+    propertyValue Out.Prefs.default 0 [exA, .s, .comment (cps "/*c*/"), .s, .op 44, .s, exB] = some (cps "a, 1px") ∧
+    propertyValue Out.Prefs.default 0 [exA, .op 44, exB] = some (cps "a, 1px") ∧
+    propertyValue Out.Prefs.default 0
+      [.comment (cps "/*x*/"), exA, .comment (cps "/**/"), .op 44, .comment (cps "/*y*/"), .s, exB, .s] = some (cps "a, 1px") ∧
+    propertyValue Out.Prefs.default 0 [exA, .comment (cps "/**/"), exB] = some (cps "a 1px") ∧
+    propertyValue Out.Prefs.default 0 [exA, .s, .s, exB] = some (cps "a 1px") ∧
+    propertyValue Out.Prefs.default 0 [exA, .s, .op 47, .s, exB] = some (cps "a/1px") ∧
+    propertyValue Out.Prefs.default 0 [exA, .s, .op 44, .comment (cps "/**/"), .s, .op 44, exB] = none ∧
+    propertyValue Out.Prefs.default 0 [exA, .op 44] = none ∧
+    propertyValue Out.Prefs.default 0 [.comment (cps "/*c*/")] = none ∧
+    propertyValue Out.Prefs.default 0 [exA, .op 44, .semi, exB] = some (cps "a,") := by
+  decide +kernel
+end
 
 /-! ## T13.2 — case insensitivity -/
 
@@ -354,6 +442,102 @@ example : member Css21.length (cps "-1.5em") = true ∧ member Css21.length (cps
 example : (firstPattern "width").map (fun r => accepts r (cps "+1px")) = some false ∧
     member Css21.length (cps "+1px") = true ∧
     (firstPattern "min-width").map (fun r => accepts r (cps "none")) = some false := by
+  decide +kernel
+
+
+/-! ## T13.4 [W2] — the colour grammar -/
+
+/-- table checks (finite computations, kernel-evaluated), one per distinct pattern: the registered pattern of
+`color` / `background-color` / `outline-color` is template-shaped (690 / 691 templates) and every template of
+`colorLower` (CSS 2.1 `<color>` without system colours and `+` signs, plus the property's keywords) lies, segment by
+segment, inside one of the pattern's. -/
+theorem color_table_check_color :
+    (firstPattern "color").map (fun r => colorCovers r (colorLower ["inherit"])) = some true := by decide +kernel
+
+theorem color_table_check_background :
+    (firstPattern "background-color").map (fun r => colorCovers r (colorLower ["transparent", "inherit"])) = some true := by
+  decide +kernel
+
+theorem color_table_check_outline :
+    (firstPattern "outline-color").map (fun r => colorCovers r (colorLower ["invert", "inherit"])) = some true := by
+  decide +kernel
+
+/-- the four `border-*-color` properties are registered with the very pattern of `background-color` -/
+theorem color_table_check_borders :
+    (sameAsBackgroundColor.all fun n => decide (firstPattern n = firstPattern "background-color")) = true := by
+  decide +kernel
+
+/-
+T13.4 [W2] colours, full statement (does NOT hold):
+  ∀ s, s.getLast? ≠ some 10 → (accepts r s = true ↔ member (color21 wsCss ++ kws extra) s = true)
+Three deviations, each with a machine-checked witness below: (1) the CSS Color 3 values (`rgba()`, `hsl()`,
+`hsla()`, `currentColor`, the X11 names) are accepted for every profile — by design of `profiles.py` (the CSS3
+colour macros replace the CSS 2.1 ones); (2) the 28 system colours are rejected (`C13-system-colors`) and a `+`
+sign in `rgb()` is rejected (`C13-plus-sign`); (3) U+000B counts as white space inside `rgb()` (Python's `\s`;
+reachable through a direct `profile.validate` call only, `C13-vtab-whitespace-direct`).
+
+PARKED — soundness up to CSS Color 3:
+  theorem color_sound_partial (prop extra) (hmem : (prop, extra) ∈ Css21.colorProps) :
+      ∃ r, firstPattern prop = some r ∧ ∀ s, s.getLast? ≠ some 10 → accepts r s = true → member (colorUpper extra) s = true
+follows from `colorWithin_spec` (Lemmas/ValidateColor.lean, proved) once the table check
+  (firstPattern "color").map (fun r => colorWithin r (colorUpper ["inherit"])) = some true
+is evaluated; `decide +kernel` does evaluate it to `true` (measured: 97 s of kernel time for `color` alone with a
+`+`-free `colorUpper`, three distinct patterns), which is over the build budget — the linear scan inside the
+`rgba(` / `hsla(` groups (288 x 288 templates of ~40 segments) needs a structured checker. Until then the
+soundness direction for colours rests on the implementation-side oracle (colour non-members by construction).
+-/
+/-- T13.4 [W2] colours, completeness with the exact guards: for the seven single-colour properties every CSS 2.1
+`<color>` that is not a system colour and has no `+` sign — the 17 keywords, `#rgb`, `#rrggbb`, `rgb()` of integers
+or percentages with CSS white space around the numbers, in any letter case — and every keyword of the property
+is accepted by the registered check. -/
+theorem color_complete_partial (prop : String) (extra : List String) (hmem : (prop, extra) ∈ Css21.colorProps) :
+    ∃ r, firstPattern prop = some r ∧ ∀ s : Str, s.getLast? ≠ some 10 →
+      member (colorLower extra) s = true → accepts r s = true := by
+  have hb := color_table_check_background
+  have hsame := List.all_eq_true.1 color_table_check_borders
+  have key : ∀ (n : String) (ex : List String),
+      (firstPattern n).map (fun r => colorCovers r (colorLower ex)) = some true →
+      ∃ r, firstPattern n = some r ∧ ∀ s : Str, s.getLast? ≠ some 10 →
+        member (colorLower ex) s = true → accepts r s = true := by
+    intro n ex h
+    cases hp : firstPattern n with
+    | none => simp [hp] at h
+    | some r =>
+      simp only [hp, Option.map_some, Option.some.injEq] at h
+      exact ⟨r, rfl, fun s hs => colorCovers_spec r _ h s hs⟩
+  have border : ∀ n ∈ sameAsBackgroundColor,
+      (firstPattern n).map (fun r => colorCovers r (colorLower ["transparent", "inherit"])) = some true := by
+    intro n hn
+    have := of_decide_eq_true (hsame n hn)
+    rw [this]; exact hb
+  simp only [Css21.colorProps, List.mem_cons, Prod.mk.injEq, List.not_mem_nil, or_false] at hmem
+  rcases hmem with ⟨rfl, rfl⟩ | ⟨rfl, rfl⟩ | ⟨rfl, rfl⟩ | ⟨rfl, rfl⟩ | ⟨rfl, rfl⟩ | ⟨rfl, rfl⟩ | ⟨rfl, rfl⟩
+  · exact key _ _ color_table_check_color
+  · exact key _ _ hb
+  · exact key _ _ (border _ (by simp [sameAsBackgroundColor]))
+  · exact key _ _ (border _ (by simp [sameAsBackgroundColor]))
+  · exact key _ _ (border _ (by simp [sameAsBackgroundColor]))
+  · exact key _ _ (border _ (by simp [sameAsBackgroundColor]))
+  · exact key _ _ color_table_check_outline
+
+/-- non-vacuity, what the reference means on examples, and the witnesses of the three deviations (tests) -/
+example : member (colorLower ["inherit"]) (cps "rgb( 1 ,2,\t3)") = true ∧
+    member (colorLower ["inherit"]) (cps "#AbC") = true ∧ member (colorLower ["inherit"]) (cps "Orange") = true ∧
+    member (colorLower ["inherit"]) (cps "rgb(1%,2.5%,-.3%)") = true ∧
+    member (colorLower ["inherit"]) (cps "rgb(1,2%,3)") = false ∧
+    member (colorLower ["inherit"]) (cps "#abcd") = false ∧
+    -- (1) CSS Color 3 values are accepted and are not CSS 2.1 colours
+    (firstPattern "color").map (fun r => accepts r (cps "rgba(1,2,3,.5)")) = some true ∧
+    member (Css21.color21 Css21.wsCss) (cps "rgba(1,2,3,.5)") = false ∧
+    -- (2) a system colour and a `+` component are CSS 2.1 colours and are rejected
+    (firstPattern "color").map (fun r => accepts r (cps "ButtonFace")) = some false ∧
+    member (Css21.color21 Css21.wsCss) (cps "ButtonFace") = true ∧
+    (firstPattern "color").map (fun r => accepts r (cps "rgb(+1,2,3)")) = some false ∧
+    member (Css21.color21 Css21.wsCss) (cps "rgb(+1,2,3)") = true ∧
+    -- (3) U+000B inside rgb() is accepted and is not CSS white space
+    (firstPattern "color").map (fun r => accepts r [114, 103, 98, 40, 11, 49, 44, 50, 44, 51, 41]) = some true ∧
+    member (Css21.color21 Css21.wsCss ++ Css21.color3Ext Css21.wsCss)
+      [114, 103, 98, 40, 11, 49, 44, 50, 44, 51, 41] = false := by
   decide +kernel
 
 end CssVerif.C13
